@@ -547,6 +547,7 @@ func runJob(j job) *jobResult {
 		rs = &runState{decisions: it.dec, initDoms: it.doms, occ: map[ssa.Instruction]int{}, ptrace: it.trace}
 		asciiKnown = map[*term]bool{}
 		onceDone = map[*value]bool{}
+		builders = map[*value]value{}
 		goQueue = nil
 		jsonStubs = map[string]*jsonStub{}
 		writtenFiles = nil
